@@ -688,6 +688,15 @@ def run(ctx):
         else:
             tables_ok = False
             pending.append((name, lit, w, exact, worst, total))
+    if sb.ret is not None and not sb.problem and g2a and a2g and not getattr(sb, "cos_via_sqrt", None):
+        # C15.11 has no instance on a healthy tree: the witness computation itself is exercised on every run -- with the extracted
+        # polynomial and the shipped tables, substituting sqrt(1 - s*s) for the cosine must produce a witness
+        ctl = sqrt_cos_witness(sb.ret, g2a, a2g)
+        ctx.analysed["control_C15_11"] = (f"substituting sqrt(1 - s*s) for cos(phi) in the extracted polynomial breaks the round trip at pi/2 - "
+                                          f"{math.pi / 2 - ctl[0]:.3g} rad by {ctl[1]:.3g} rad" if ctl else "no witness")
+        if ctl is None:
+            ctx.unk("C15.11", "control: the cancellation witness search finds the effect of sqrt(1 - s*s) on the shipped evaluator", where,
+                    "the search returned nothing: C15.11 would not report such a change either")
     if getattr(sb, "cos_via_sqrt", None) and sb.ret is not None and not sb.problem and g2a and a2g:
         wit = sqrt_cos_witness(sb.ret, g2a, a2g)
         if wit is not None:
